@@ -243,7 +243,6 @@ class UnitBuild:
         # ghost state and helper text from the spec
         for g in cfg.get('ghost', []):
             emit(g)
-        emit(self.init_consts())
         # prototypes (with contracts for contract/stub mode)
         for cname, sig in ctx.fn_decls.items():
             mode = ctx.fn_mode.get(cname, 'body')
@@ -257,6 +256,7 @@ class UnitBuild:
                 emit(';')
             else:
                 emit(sig + ';')
+        emit(self.init_consts())
         for gname, g in cfg.get('ghost_fns', {}).items():
             emit(g['sig'])
             for kind, tag, text in self.contract_text(gname, False):
@@ -303,7 +303,9 @@ class UnitBuild:
             return '\n'.join(out)
         return re.sub(r'/\*LOOP-CONTRACT ([A-Za-z0-9_]+)#([A-Za-z0-9_]+)\*/', rep, body)
 
-    def init_consts(self):
+    def init_consts(self, native=False):
+        """native=True: the same definitions with every free leaf fixed to the value the witness instantiates (for the
+        native cross-check of bindings and lowered initialisers, see native_const_check)"""
         ctx = self.ctx
         cfg = self.cfg
         cenv = cfg.get('consts', {})
@@ -315,7 +317,12 @@ class UnitBuild:
                 b = cenv.get(cn)
                 if b is None:
                     raise Unsupported('unbound symbolic constant %s (concrete value in witness: %s); add it to the unit\'s consts' % (cn, info.get('concrete')))
-                if b[0] == 'range':
+                if b[0] == 'range' and native:
+                    if info.get('concrete') is None:
+                        raise Unsupported('leaf constant %s has no concrete value in the witness' % cn)
+                    stm[cn] = '%s = (%s)(%s);' % (cn, info['ctype'], info['concrete'])
+                    deps[cn] = set()
+                elif b[0] == 'range':
                     lo, hi = b[1], b[2]
                     stm[cn] = '{ %s __v; __CPROVER_assume(__v >= %s && __v <= %s); %s = __v; }' % (info['ctype'], lo, hi, cn)
                     deps[cn] = set()
@@ -326,7 +333,6 @@ class UnitBuild:
                 elif b[0] == 'expr':
                     stm[cn] = '%s = (%s)(%s);' % (cn, info['ctype'], b[1])
                     deps[cn] = _ids(b[1]) & set(ctx.const_order)
-                    self.check_binding(cn, b[1])
                 elif b[0] == 'value':
                     stm[cn] = '%s = (%s)(%s);' % (cn, info['ctype'], b[1])
                     deps[cn] = set()
@@ -350,13 +356,37 @@ class UnitBuild:
             done.add(c); order.append(c)
         for cn in ctx.const_order:
             visit(cn)
-        out = 'void init_consts(void)\n{\n'
+        out = 'void %s(void)\n{\n' % ('init_consts_native' if native else 'init_consts')
         for cn in order:
             out += '\t' + stm[cn] + '\n'
-        for a in cenv.get('__assume__', []):
-            out += '\t__CPROVER_assume(%s);\n' % a
+        for i, a in enumerate(cenv.get('__assume__', [])):
+            out += ('\tprintf("assume %d %%d\\n", (int)(%s));\n' % (i, a)) if native else ('\t__CPROVER_assume(%s);\n' % a)
         out += '}\n'
         return out
+
+    NATIVE_DEFS = ['-D__CPROVER_requires(...)=', '-D__CPROVER_ensures(...)=', '-D__CPROVER_assigns(...)=', '-D__CPROVER_loop_invariant(...)=',
+                   '-D__CPROVER_decreases(...)=', '-D__CPROVER_assume(...)=((void)0)', '-D__CPROVER_assert(...)=((void)0)']
+
+    def native_const_spec(self, txt):
+        """Program and expectations for the native cross-check of the symbolic constants: the generated unit compiled natively with
+        every free leaf constant fixed to the witness' value; every constant clang evaluated for the instantiation must come out the
+        same.  This checks (a) every binding 'leaf := expr' of the spec, (b) the lowering of the constant initialisers
+        (bitWidth, contain, ...), on the witness.  Run by run_native_const_check (in the parallel verify stage)."""
+        ctx = self.ctx
+        if not ctx.const_order:
+            return None
+        prog = '#include <stdio.h>\n' + txt + '\n' + self.init_consts(native=True) + '\nint main(void)\n{\n\tinit_consts_native();\n'
+        for cn in ctx.const_order:
+            prog += '\tprintf("%s %%lld\\n", (long long)%s);\n' % (cn, cn)
+        prog += '\treturn 0;\n}\n'
+        cenv = self.cfg.get('consts', {})
+        expect = []
+        for cn in ctx.const_order:
+            want = ctx.consts[cn].get('concrete')
+            b = cenv.get(cn)
+            what = ('binding %s := %s' % (cn, b[1])) if b and b[0] == 'expr' else ('lowered initialiser of %s' % cn)
+            expect.append((cn, None if want is None else int(want), what))
+        return {'prog': prog, 'expect': expect, 'assumes': list(cenv.get('__assume__', [])), 'bounded': bool(self.cfg.get('bounded'))}
 
     def check_binding(self, cn, expr):
         """the binding leaf := expr must hold for the concrete values of this witness"""
@@ -434,6 +464,49 @@ def run(cmd, timeout, mem_gb=6, cwd=None):
         return 'timeout', (e.stdout or b'').decode(errors='replace'), (e.stderr or b'').decode(errors='replace'), time.time() - t0
 
 
+def run_native_const_check(spec, base):
+    """returns (error or None, note)"""
+    NATIVE_DEFS = UnitBuild.NATIVE_DEFS
+    with open(base + '.c', 'w') as f:
+        f.write(spec['prog'])
+    try:
+        p = subprocess.run(['gcc', '-O0', '-w', '-std=gnu11'] + NATIVE_DEFS + ['-ffunction-sections', '-fdata-sections', '-Wl,--gc-sections', base + '.c', '-o', base + '.exe'],
+                           stdout=subprocess.PIPE, stderr=subprocess.STDOUT, timeout=120)
+        if p.returncode != 0:
+            return 'native constant check: generated C does not compile natively\n' + p.stdout.decode(errors='replace')[-1500:], None
+        q = subprocess.run([base + '.exe'], stdout=subprocess.PIPE, stderr=subprocess.STDOUT, timeout=20)
+        if q.returncode != 0:
+            return 'native constant check: evaluation crashed (rc=%s)' % q.returncode, None
+    finally:
+        for ext in ('.c', '.exe'):
+            try:
+                os.unlink(base + ext)
+            except OSError:
+                pass
+    vals, assumes = {}, {}
+    for ln in q.stdout.decode().splitlines():
+        a = ln.split()
+        if a[0] == 'assume':
+            assumes[int(a[1])] = int(a[2])
+        else:
+            vals[a[0]] = int(a[1])
+    n = 0
+    notes = []
+    for cn, want, what in spec['expect']:
+        if want is None:
+            continue
+        n += 1
+        if vals.get(cn) != want:
+            return '%s evaluates to %s on the witness but the instantiation has %s' % (what, vals.get(cn), want), None
+    for i, a in enumerate(spec['assumes']):
+        if not assumes.get(i):
+            if not spec['bounded']:
+                return 'assumption on the constants does not hold for the witness: %s' % a, None
+            notes.append('bounded unit: the witness lies outside the assumption %s' % a)
+    notes.append('constants: %d of %d symbolic constants agree natively with the witness instantiation (bindings and lowered initialisers)' % (n, len(spec['expect'])))
+    return None, '; '.join(notes)
+
+
 CBMC_CHECKS = ['--bounds-check', '--pointer-check', '--pointer-overflow-check', '--signed-overflow-check',
                '--undefined-shift-check', '--div-by-zero-check']
 
@@ -467,6 +540,68 @@ def verify(cfile, workdir, cfg, target_cname, build):
     if rc != 0:
         res['reason'] = 'goto-instrument failed\n' + (out + err)[-3000:]
         return res
+    # ---- loops of lowered bodies that neither a loop contract nor an unwind bound of the spec covers (a loop the spec does not
+    # know: new code).  CBMC would unwind such a loop without bound (-> timeout -> undecided).  Before that, search the first
+    # iterations for a failing obligation: a failure found with the loop cut short is a failure of the uncut program (paths are
+    # only removed), so it is reported; finding none decides nothing and the unbounded run follows.
+    try:
+        txt = open(cfile).read()
+    except OSError:
+        txt = ''
+    marks = re.findall(r'/\* loop ([A-Za-z0-9_]+)#(\w+): no contract \*/', txt)
+    covered = set((cfg.get('unwindset') or {}).keys()) | set('%s.%s' % (target_cname, k) for k in (cfg.get('unwind_target_loops') or {}))
+    uncovered = sorted(set('%s.%s' % (f, k) for f, k in marks) - covered)
+    if uncovered and not cfg.get('unwind') and not cfg.get('no_loop_triage'):
+        # name the loops as the instrumented program knows them (a global --unwind would also cut the loops of the contract library)
+        rc, out, err, dt = run(['cbmc', '--show-loops', b_gb], 60)
+        present = re.findall(r'^Loop ([A-Za-z0-9_]+)\.(\d+):', out or '', re.M)
+        unc_fns = set(x.rpartition('.')[0] for x in uncovered)
+        cov_names = set()
+        for k in (cfg.get('unwindset') or {}):
+            fn, _, idx = k.rpartition('.')
+            cov_names.add(k); cov_names.add('%s_wrapped_for_contract_checking.%s' % (fn, idx))
+        for k in (cfg.get('unwind_target_loops') or {}):
+            cov_names.add('%s_wrapped_for_contract_checking.%s' % (target_cname, k))
+        tcmd = ['cbmc', b_gb] + CBMC_CHECKS + ['--json-ui', '--trace']
+        for fn, idx in present:
+            base_fn = fn[:-len('_wrapped_for_contract_checking')] if fn.endswith('_wrapped_for_contract_checking') else fn
+            if base_fn in unc_fns and '%s.%s' % (fn, idx) not in cov_names:
+                tcmd += ['--unwindset', '%s.%s:%d' % (fn, idx, cfg.get('triage_unwind', 3))]
+        for k, v in (cfg.get('unwindset') or {}).items():
+            fn, _, idx = k.rpartition('.')
+            tcmd += ['--unwindset', '%s:%d' % (('%s_wrapped_for_contract_checking.%s' % (fn, idx)) if fn == target_cname else k, v)]
+        for k, v in (cfg.get('unwind_target_loops') or {}).items():
+            tcmd += ['--unwindset', '%s_wrapped_for_contract_checking.%s:%d' % (target_cname, k, v)]
+        if cfg.get('object_bits'):
+            tcmd += ['--object-bits', str(cfg['object_bits'])]
+        if cfg.get('sat_solver', 'cadical') != 'minisat2':
+            tcmd += ['--sat-solver', cfg.get('sat_solver', 'cadical')]
+        res['cmds'].append(' '.join(tcmd))
+        rc, out, err, dt = run(tcmd, min(cfg.get('timeout', 600), 300), cfg.get('mem_gb', 8))
+        res['times']['cbmc-loop-triage'] = dt
+        res['uncovered_loops'] = uncovered
+        fails = []
+        if rc != 'timeout':
+            try:
+                for item in json.loads(out):
+                    for r in item.get('result', []) if isinstance(item, dict) else []:
+                        nm = r.get('property') or ''
+                        if r.get('status') == 'FAILURE' and '.unwind.' not in nm and not (r.get('description') or '').startswith('canary') \
+                                and not (r.get('description') or '').startswith('unwinding assertion'):
+                            fails.append(r)
+            except Exception:
+                fails = []
+        if fails:
+            for r in fails:
+                sl = r.get('sourceLocation', {})
+                ob = {'name': r.get('property'), 'description': r.get('description'), 'status': 'FAILURE',
+                      'file': sl.get('file'), 'line': int(sl['line']) if sl.get('line') else None, 'function': sl.get('function')}
+                if r.get('trace'):
+                    ob['trace'] = compact_trace(r['trace'])
+                res['obligations'].append(ob)
+            res['status'] = 'done'
+            res['triage'] = 'loop(s) %s have no loop contract; searching their first %s iterations found failing obligations' % (', '.join(uncovered), cfg.get('triage_unwind', 3))
+            return res
     cmd = ['cbmc', b_gb] + CBMC_CHECKS + ['--json-ui', '--trace']
     if cfg.get('unwind'):
         cmd += ['--unwind', str(cfg['unwind']), '--unwinding-assertions']
